@@ -390,13 +390,15 @@ let c04 (payload : string) : string =
   let tbl : (int, (string * string * string * string * string * int)) Hashtbl.t = Hashtbl.create 16 in
   (* rid -> (target, codec, dec, h, pathname/methname, C) *)
   let names : (int, string) Hashtbl.t = Hashtbl.create 16 in
+  let setsmeta : (int, bool) Hashtbl.t = Hashtbl.create 16 in
   let intern =
     let t : (string, int) Hashtbl.t = Hashtbl.create 16 in
     fun s -> (match Hashtbl.find_opt t s with Some i -> i | None ->
       let i = Hashtbl.length t + 1 in Hashtbl.add t s i; Hashtbl.add names i s; i) in
   let evs = List.map (fun t -> match String.split_on_char ':' t with
-    | ["R"; conn; rid; seq; path; meth; ser; hb; ow; target; codec; dec; h; c] ->
+    | ["R"; conn; rid; seq; path; meth; ser; hb; ow; target; codec; dec; h; c; rm] ->
       let ridi = int_of_string rid in
+      if rm = "1" then Hashtbl.replace setsmeta ridi true;
       Hashtbl.replace tbl ridi (target, codec, dec, h, path ^ "." ^ meth, int_of_string c);
       CRead (nat_of_int (int_of_string conn), nat_of_int ridi,
              { q_seq = n_of_dec seq; q_path = nat_of_int (intern path); q_meth = nat_of_int (intern meth);
@@ -420,7 +422,9 @@ let c04 (payload : string) : string =
     let id = nat_of_int (int_of_string (String.sub h 1 (String.length h - 1))) in
     match h.[0] with 'r' -> HReply args | 'f' -> HFail id | _ -> HPanic id) in
   ignore cur_args;
-  let st = crun find codec_ok decodable handler cinit evs in
+  (* the response metadata the handler sets: one entry (key 1 = "trace-id", value = the request id) *)
+  let hmeta _ _ (args : nat) = if Hashtbl.mem setsmeta (int_of_nat args) then [(nat_of_int 1, args)] else [] in
+  let st = crun find codec_ok decodable handler hmeta cinit evs in
   let show_err e = (match e with
     | None -> "-" | Some (XExact t) -> "text:" ^ string_of_int (int_of_nat t)
     | Some (XPanic v) -> "panic:" ^ string_of_int (int_of_nat v)
@@ -432,9 +436,10 @@ let c04 (payload : string) : string =
       else if f.r_status = SError then "-"
       else (let (_, _, _, _, _, c) = Hashtbl.find tbl (int_of_nat f.r_payload) in
             Printf.sprintf "id%d=%d" (int_of_nat f.r_payload) c) in
-    Printf.sprintf "%s/%s.%s/%d/%s/%s/%s" (show_u64 f.r_seq)
+    let rm = (match f.r_meta with (_, v) :: _ -> "t" ^ string_of_int (int_of_nat v) | [] -> "-") in
+    Printf.sprintf "%s/%s.%s/%d/%s/%s/%s/rm=%s" (show_u64 f.r_seq)
       (Hashtbl.find names (int_of_nat f.r_path)) (Hashtbl.find names (int_of_nat f.r_meth)) (int_of_n f.r_ser)
-      (if f.r_status = SError then "error" else "normal") (show_err f.r_err) pl in
+      (if f.r_status = SError then "error" else "normal") (show_err f.r_err) pl rm in
   let conns = List.sort_uniq compare (List.filter_map (fun e -> match e with CRead (c, _, _) -> Some (int_of_nat c) | _ -> None) evs) in
   let per = List.map (fun c ->
     Printf.sprintf "c%d=[%s]" c (String.concat ";" (List.filter_map (fun (c', f) -> if int_of_nat c' = c then Some (show_f f) else None) st.written))) conns in
@@ -474,7 +479,7 @@ let c15 (payload : string) : string =
                i_malformed = (mal = "1"); i_q = q } in
     let find _ _ = (match target with "nosvc" -> TNoService | "nometh" -> TNoMethod | "func" -> TFunction | _ -> TMethod) in
     let handler _ _ a = (match h with "r" -> HReply a | "f" -> HFail (nat_of_int 7) | _ -> HPanic (nat_of_int 7)) in
-    let res = serve find (fun _ -> true) (fun _ _ -> dec = "1") handler
+    let res = serve find (fun _ -> true) (fun _ _ -> dec = "1") handler (fun _ _ _ -> [])
         (match ing with "native" -> Native | "gateway" -> Gateway | _ -> JsonRpc) icfg rq in
     let out = (match res.o_out with
       | IResult _ -> "result:" ^ c
